@@ -80,7 +80,7 @@ Ev(m, e) ==
                    !.viol = V2(V2(m.viol, m.os[o] = 0, "completion-for-op-not-in-os", o),
                                m.alloc[o] # 1, "completion-touches-freed-op", o)]
     [] e.ev = "cancelreq" -> [m EXCEPT !.viol = V(m, m.alloc[o] # 1, "cancel-dead-op", o)]
-    [] e.ev = "ringclosed" -> [m EXCEPT !.ring = "closed", !.os = [p \in Ops |-> 0]]
+    [] e.ev = "ringclosed" -> [m EXCEPT !.ring = "closed", !.os = [p \in Ops |-> 0], !.pq = [p \in Ops |-> {}]]
     [] e.ev = "dropfree" ->
          [m EXCEPT !.viol = V2(V2(m.viol, m.ring # "closed", "release-before-ring-closed", o),
                                m.alloc[o] # 1, "release-of-dead-op", o)]
